@@ -52,12 +52,23 @@ def run_grid(ctx, jobs, own, nontrivial_note=None, workers=16, deadline_s=None):
                 ctx.job_inconclusive(r.detail)
                 continue
             v = r.value
+            text = r.job['args']['text']
+            case = {'tag': v.get('tag'), 'input_text': text, 'job_fn': r.job['fn'], 'oracles': r.job['args']['oracles']}
+            own_prop = ORACLE_PROP.get(own, own.upper())
+            for prop, dump in (v.get('contracts') or {}).items():
+                if prop == own_prop:
+                    ctx.mon.merge(dump, case=case)
+                else:
+                    ctx.cross_mon(prop).merge(dump)
+            cc = ctx.coverage.setdefault('contract_evaluations', {})
+            for k, n in (v.get('contract_counts') or {}).items():
+                cc[k] = cc.get(k, 0) + n
+            if v.get('contract_engine'):
+                ctx.coverage['contract_engine'] = v['contract_engine']
             if not v['ok']:
                 ctx.reject(v['exc_type'], v['exc_msg'])
                 continue
             accepted += 1
-            text = r.job['args']['text']
-            case = {'tag': v.get('tag'), 'input_text': text, 'job_fn': r.job['fn'], 'oracles': r.job['args']['oracles']}
             for name, dump in v['mons'].items():
                 if name == own:
                     ctx.mon.merge(dump, case=case)
@@ -94,6 +105,9 @@ def replay_run_oracles(ctx, payload):
     ctx.evaluations = 1
     if not v['ok']:
         ctx.reject(v['exc_type'], v['exc_msg'])
+    for prop, dump in (v.get('contracts') or {}).items():
+        if prop == ctx.prop:
+            ctx.mon.merge(dump, case=case)
     for name, dump in v['mons'].items():
         ctx.mon.merge(dump, case=case)
         if sum(dump.get('evals', {}).values()):
